@@ -4,6 +4,7 @@ CONSTANTS
   MaxConns <- MC12
   MayFail = TRUE
   CancelTail = TRUE
+  AwaitCancelled = TRUE
   ValidateUpFront = TRUE
 VIEW view
 INVARIANT TypeOK
